@@ -135,7 +135,7 @@ def concat(sequence: Sequence[object], other: Sequence[object]) -> list[object]:
 def map_(sequence: Sequence[object], key: object) -> list[object]:
     """Return an array/list of items in _sequence_ selected by _key_."""
     try:
-        return [_getitem(itm, str(key), default=_NULL) for itm in sequence]
+        return [_getitem(itm, str(key), default=None) for itm in sequence]
     except TypeError as err:
         raise LiquidTypeError("can't map sequence", token=None) from err
 
